@@ -73,6 +73,12 @@ func init() {
 		}
 		return 8
 	}, runKMountC05)
+	addKMount("C15", func(tier string) int {
+		if tier == "thorough" {
+			return 96
+		}
+		return 8
+	}, runKMountC15)
 	addKMount("C07", func(tier string) int {
 		if tier == "thorough" {
 			return 96
@@ -332,6 +338,24 @@ func SQLChild() int {
 			}
 			if err != nil {
 				resp.Err = err.Error()
+			}
+		case "stat":
+			if st, err := os.Stat(req.Path); err != nil {
+				resp.Err = err.Error()
+			} else {
+				resp.Val = fmt.Sprint(st.Size())
+			}
+		case "readdir":
+			ents, err := os.ReadDir(req.Path)
+			if err != nil {
+				resp.Err = err.Error()
+			} else {
+				var names []string
+				for _, e := range ents {
+					names = append(names, e.Name())
+				}
+				sort.Strings(names)
+				resp.Val = strings.Join(names, ",")
 			}
 		case "flock":
 			// blocking POSIX write lock on one byte (F_SETLKW), kept until funlock
@@ -1786,4 +1810,180 @@ func unjournaledFreePages(dir, name string, ps uint32, led *ledger, before mon.P
 		return ""
 	}
 	return fmt.Sprintf("after playing the hot journal back the database equals the pre-transaction image except for pages %v, which are free-list leaf pages of that image and have no journal record (SQLite does not journal them and overwrote them)", diff)
+}
+
+// runKMountC15: drop and recreate through the kernel. The application on the
+// primary unlinks the database file (rm through the mount); a replica's
+// application, whose kernel has the old file's directory entry, attributes and
+// pages cached, must see the name disappear and, after the name is recreated
+// with another page size and content, read exactly the new database.
+func runKMountC15(c *core.Case, k int) {
+	if ok, why := kmountAvailable(); !ok {
+		c.Count("kmount_unavailable", 1)
+		if k == 0 {
+			c.Sample(map[string]any{"kmount": "unavailable", "why": why})
+		}
+		return
+	}
+	c.Count("kmount_cases", 1)
+	cl, err := cluster.New(c.Dir, []cluster.NodeOpts{{Candidate: true, KernelMount: true}, {KernelMount: true}})
+	if err != nil {
+		c.Inconclusive(err.Error())
+		return
+	}
+	defer cl.Close()
+	if err := cl.Start(0); err != nil || cl.WaitPrimary(0, 10*time.Second) == nil {
+		c.Inconclusive(fmt.Sprintf("primary start: %v", err))
+		return
+	}
+	if err := cl.Start(1); err != nil || !cl.WaitConnected(1, 10*time.Second) {
+		c.Inconclusive(fmt.Sprintf("replica start: %v", err))
+		return
+	}
+	P, R := cl.Nodes[0], cl.Nodes[1]
+	var hist []string
+	detail := func() map[string]any {
+		return map[string]any{"driver": "B (kernel mount + real SQLite)", "steps": hist, "primary_pos": mon.PosOf(P.Node, "db").String(), "replica_pos": mon.PosOf(R.Node, "db").String()}
+	}
+	fail := func(fp, what string) { c.Violate("C15/kmount/"+fp, what, detail()) }
+	proc, err := startSQLProc()
+	if err != nil {
+		c.Inconclusive("SQL child: " + err.Error())
+		return
+	}
+	defer proc.stop()
+	pdb, rdb := filepath.Join(P.MountDir(), "db"), filepath.Join(R.MountDir(), "db")
+	converge := func(ctx string) bool {
+		ok, _, timedOut := cl.WaitConverged(P, R, []string{"db"}, 8, 30*time.Second)
+		if timedOut {
+			c.Inconclusive("replica convergence watchdog (" + ctx + ")")
+			return false
+		}
+		if healthViolations(c, R.Node, ctx, detail()) || healthViolations(c, P.Node, ctx, detail()) {
+			return false
+		}
+		if !ok {
+			fail("not-converged", fmt.Sprintf("%s: the replica is at %s, the primary at %s", ctx, mon.PosOf(R.Node, "db"), mon.PosOf(P.Node, "db")))
+			return false
+		}
+		return true
+	}
+	cycles := 2 + c.Rng.IntN(2)
+	prevTXID := uint64(0)
+	for cycle := 0; cycle < cycles; cycle++ {
+		ps := []int{1024, 4096, 512, 8192}[(k+cycle)%4]
+		mode := []string{"delete", "wal", "truncate", "wal", "persist"}[(k+cycle*2)%5]
+		// ---- (re)create on the primary
+		w, err := proc.open(pdb, false)
+		if err != nil {
+			fail("recreate-failed", "open: "+err.Error())
+			return
+		}
+		tag := fmt.Sprintf("c%d", cycle)
+		for _, q := range []string{fmt.Sprintf("PRAGMA page_size=%d", ps), "PRAGMA journal_mode=" + mode,
+			fmt.Sprintf("CREATE TABLE t_%s(id INTEGER PRIMARY KEY, k INTEGER, v BLOB)", tag),
+			fmt.Sprintf("INSERT INTO t_%s VALUES(1,%d,randomblob(%d))", tag, cycle, 500+c.Rng.IntN(20000)),
+			fmt.Sprintf("INSERT INTO t_%s VALUES(2,%d,randomblob(%d))", tag, cycle, 10+c.Rng.IntN(3000))} {
+			if _, err := w.queryStringOrExec(q); err != nil {
+				healthViolations(c, P.Node, q, detail())
+				if !c.Violated() {
+					fail("recreate-failed", fmt.Sprintf("cycle %d: %q: %v", cycle, q, err))
+				}
+				return
+			}
+			hist = append(hist, q)
+		}
+		if got := mon.PosOf(P.Node, "db").TXID; got <= prevTXID {
+			fail("recreate-restarted-txids", fmt.Sprintf("cycle %d: after recreation the primary is at txid %d, the drop was txid %d", cycle, got, prevTXID))
+			return
+		}
+		want, err := w.tableHash("t_" + tag)
+		if err != nil {
+			fail("read-error", err.Error())
+			return
+		}
+		if mode == "wal" && c.Rng.IntN(2) == 0 {
+			_ = w.exec("PRAGMA wal_checkpoint(TRUNCATE)")
+		}
+		pendingWAL := mode == "wal"
+		w.close()
+		if !converge(fmt.Sprintf("after (re)creation %d", cycle)) {
+			return
+		}
+		// ---- the replica's application reads it (and so caches entry, attributes, pages)
+		r, err := proc.open(rdb, true)
+		if err != nil {
+			fail("replica-open", fmt.Sprintf("cycle %d: %v", cycle, err))
+			return
+		}
+		got, err := r.tableHash("t_" + tag)
+		if cycle > 0 {
+			if old, oerr := r.tableHash(fmt.Sprintf("t_c%d", cycle-1)); oerr == nil {
+				fail("replica-sees-dropped-content", fmt.Sprintf("cycle %d: the replica still reads the previous incarnation's table (%s)", cycle, old))
+				r.close()
+				return
+			}
+		}
+		keepOpen := c.Rng.IntN(2) == 0
+		if !keepOpen {
+			r.close()
+		}
+		if err != nil || got != want {
+			fail("replica-content-differs", fmt.Sprintf("cycle %d (page size %d, %s): the replica reads %s (%v), the primary holds %s", cycle, ps, mode, got, err, want))
+			return
+		}
+		c.Count("recreates", 1)
+		c.Count("kmount_replica_reads_after_recreate", 1)
+		// ---- drop on the primary: rm through the mount
+		prev := mon.PosOf(P.Node, "db")
+		if _, err := proc.call(sqlReq{Op: "unlink", Path: pdb}); err != nil {
+			healthViolations(c, P.Node, "unlink", detail())
+			if !c.Violated() {
+				fail("drop-failed", fmt.Sprintf("cycle %d: unlink of the database on the primary's mount: %v", cycle, err))
+			}
+			return
+		}
+		hist = append(hist, fmt.Sprintf("rm db (pending wal %v, replica connection open %v)", pendingWAL, keepOpen))
+		c.Count("drops", 1)
+		pos := mon.PosOf(P.Node, "db")
+		if pos.TXID != prev.TXID+1 || pos.Chk != ref.ChecksumFlag {
+			fail("drop-position", fmt.Sprintf("after the drop the position is %s, expected txid %d with the empty checksum", pos, prev.TXID+1))
+			return
+		}
+		prevTXID = pos.TXID
+		for _, nm := range []string{"db", "db-journal", "db-wal", "db-shm"} {
+			if _, err := proc.call(sqlReq{Op: "stat", Path: filepath.Join(P.MountDir(), nm)}); err == nil {
+				fail("file-left-after-drop", fmt.Sprintf("%s is still visible on the primary's mount after the drop", nm))
+				return
+			}
+		}
+		if !converge(fmt.Sprintf("after drop %d", cycle)) {
+			return
+		}
+		if keepOpen {
+			r.close()
+		}
+		// the replica's kernel must have forgotten the name
+		for _, nm := range []string{"db", "db-journal", "db-wal", "db-shm"} {
+			if sz, err := proc.call(sqlReq{Op: "stat", Path: filepath.Join(R.MountDir(), nm)}); err == nil {
+				fail("replica-still-sees-dropped-file", fmt.Sprintf("cycle %d: %s is still visible through the replica's mount after the drop was applied (size %s)", cycle, nm, sz.Val))
+				return
+			}
+		}
+		if ls, err := proc.call(sqlReq{Op: "readdir", Path: R.MountDir()}); err == nil && strings.Contains(","+ls.Val+",", ",db,") {
+			fail("replica-lists-dropped-file", "the replica's directory listing still shows the dropped database: "+ls.Val)
+			return
+		}
+		c.Count("kmount_drop_seen_through_replica_kernel", 1)
+	}
+	c.Distinct(fmt.Sprintf("kmount/c15/k%d/cycles%d", k%5, cycles))
+	if k < 2 {
+		c.Sample(detail())
+	}
+}
+
+// tableHash hashes one table's rows (remote).
+func (s *sqlDB) tableHash(table string) (string, error) {
+	r, err := s.p.call(sqlReq{Op: "query1", H: s.h, Q: "SELECT count(*) || '/' || coalesce(sum(length(v)),0) || '/' || coalesce(hex(group_concat(substr(v,1,8))),'') FROM (SELECT v FROM " + table + " ORDER BY id)"})
+	return r.Val, err
 }
